@@ -21,6 +21,7 @@
 -/
 import HvProto.Lemmas.PaxosInst
 import HvProto.Lemmas.RaftRefine
+import HvProto.Lemmas.RaftLog
 
 namespace HvProto.C40
 open HvProto
@@ -184,5 +185,30 @@ def RaftLogMatchingStatement (n : Nat) : Prop :=
 def RaftCommittedPrefixAgreementStatement (n : Nat) : Prop :=
   ∀ s, Raft.Reach n s → ∀ a b i, i < (s.nodes a).commitIndex → i < (s.nodes b).commitIndex →
     (s.nodes a).log.getD i default = (s.nodes b).log.getD i default
+
+/-- PARTIAL towards `RaftLogMatchingStatement`: the index half. In every reachable state every log is
+    index-consistent (`log[i].index = i+1`, which is what `raft_step` relies on when it addresses
+    `state.log[entry.index - 1]`) and every `AppendEntries` in flight carries the consecutive positions
+    `prev+1, prev+2, ..`; hence two entries with equal `index` fields sit at equal positions in any two logs.
+    MISSING: the term half (equal terms at a position imply equal prefixes) - it needs the invariant that
+    every entry of term `t` is a copy of an entry of the unique leader of `t` (election safety is proved,
+    the per-term canonical-log invariant over `appendEntriesLoop` is not). -/
+theorem raft_log_matching_partial (n : Nat) (s : Raft.Sys) (h : Raft.Reach n s) :
+    (∀ v i e, (s.nodes v).log[i]? = some e → e.index = i + 1) ∧
+    (∀ dst frm t l p pt es lc, s.net ⟨dst, frm, .appendEntries t l p pt es lc⟩ →
+        ∀ k e, es[k]? = some e → e.index = p + k + 1) := by
+  have hw := Raft.aux_winv_reach n s h
+  exact ⟨fun v => hw.logWf v, fun dst frm t l p pt es lc hh => hw.aeWf dst frm t l p pt es lc hh⟩
+
+/-- PARTIAL towards `RaftCommittedPrefixAgreementStatement`: in every reachable state the committed
+    prefix of every member really is a prefix of its log (`commit_index <= log.len()`, so the emission loop
+    never indexes out of bounds and the truncation guard protects it), and what was emitted is committed
+    (`emitted_index <= commit_index`).
+    MISSING: leader completeness (a leader of a later term holds every entry committed earlier), which
+    together with log matching yields agreement of the committed prefixes of different members. -/
+theorem raft_committed_prefix_agreement_partial (n : Nat) (s : Raft.Sys) (h : Raft.Reach n s) (v : Nat) :
+    (s.nodes v).commitIndex ≤ (s.nodes v).log.length ∧ (s.nodes v).emittedIndex ≤ (s.nodes v).commitIndex := by
+  have hw := Raft.aux_winv_reach n s h
+  exact ⟨hw.commitLe v, hw.emitLe v⟩
 
 end HvProto.C40
